@@ -61,6 +61,15 @@ Section Units.
     - exists c. rewrite nth_error_upd_nth_other by exact Hne. repeat split; auto using incl_refl.
   Qed.
 
+  Lemma cuheap_upd (C : list cu_obj) cu f (keys : list Z) (objs : list nat) :
+    (forall c, c_off (f c) = c_off c) ->
+    (forall id c, nth_error C id = Some c -> In (c_off c, id) (combine keys objs)) ->
+    forall id c, nth_error (upd_nth cu f C) id = Some c -> In (c_off c, id) (combine keys objs).
+  Proof.
+    intros Hf H id c Hc. apply nth_error_upd_nth in Hc. destruct Hc as [(-> & y & Hy & ->)|(_ & Hc)]; [|auto].
+    rewrite Hf. auto.
+  Qed.
+
   (* facts about a cached unit object *)
   Lemma cu_facts s id c : Inv F s -> nth_error (cus s) id = Some c ->
     exists ud, unit_at F (c_off c) = Some ud /\ c_hdr c = ud_hdr ud /\ c_die_off c = ud_die_off ud /\
@@ -122,6 +131,8 @@ Section Units.
         * apply (inv_secmap _ _ HI).
         * apply (inv_symmap _ _ HI).
         * apply (inv_numtags _ _ HI).
+        * intros id c Hn. apply in_combine_insert; [exact Hl|]. apply nth_error_snoc in Hn.
+          destruct Hn as [[_ Hn]|[-> ->]]; [right; apply (inv_cuheap _ _ HI); exact Hn|left; reflexivity].
       + split; [scbn; apply cus_mono_snoc|]. split; [scbn; apply dies_mono_refl|reflexivity].
       + exists newc. scbn. split; [apply nth_error_snoc_new|reflexivity].
   Qed.
@@ -275,7 +286,7 @@ Section Units.
       assert (Hmono : cus_mono (cus s) (upd_nth cu f (cus s))).
       { apply cus_mono_upd. intros c0 _. repeat split; auto using incl_refl. }
       eexists _, _. split; [reflexivity|]. split; [|split; [|split]].
-      + destruct HI as [I1 I2 I3 I4 I5 I6 I7 I8 I9 I10]. constructor; scbn; auto.
+      + destruct HI as [I1 I2 I3 I4 I5 I6 I7 I8 I9 I10 I11]. constructor; scbn; auto.
         * intros k id Hin. destruct (I3 _ _ Hin) as (c0 & Hc0 & Ec0).
           destruct (Hmono _ _ Hc0) as (c0' & Hc0' & Eo & _). exists c0'. split; congruence.
         * intros id x Hx. apply nth_error_upd_nth in Hx. destruct Hx as [(-> & y & Hy & ->)|(Hne & Hx)]; [|auto].
@@ -284,6 +295,7 @@ Section Units.
           unfold f. cbn [set_c_abbrev c_abbrev c_hdr].
           assert (y = c) by congruence. subst y. destruct v as [t e]. cbn [fst]. eauto.
         * intros id d Hd. eapply die_ok_mono; [exact Hmono | apply dies_mono_refl | auto].
+        * apply cuheap_upd; [intros c0; reflexivity|exact I11].
       + split; [scbn; exact Hmono|]. split; [scbn; apply dies_mono_refl|reflexivity].
       + reflexivity.
       + exists (f c). scbn. split; [apply nth_error_upd_nth_same; exact Hc|]. repeat split.
@@ -341,7 +353,7 @@ Section Units.
     assert (Hdm : dies_mono (dies s) (dies s ++ [nd])) by apply dies_mono_snoc.
     assert (Hfc : nth_error (upd_nth cu f (cus s)) cu = Some (f c)) by (apply nth_error_upd_nth_same; exact Hc).
     split; [|split].
-    - destruct HI as [I1 I2 I3 I4 I5 I6 I7 I8 I9 I10]. unfold s'. constructor; scbn; auto.
+    - destruct HI as [I1 I2 I3 I4 I5 I6 I7 I8 I9 I10 I11]. unfold s'. constructor; scbn; auto.
       + intros k id Hin. destruct (I3 _ _ Hin) as (c0 & Hc0 & Ec0).
         destruct (Hmono _ _ Hc0) as (c0' & Hc0' & Eo & _). exists c0'. split; congruence.
       + intros id x Hx. apply nth_error_upd_nth in Hx. destruct Hx as [(-> & y & Hy & ->)|(Hne & Hx)].
@@ -363,6 +375,7 @@ Section Units.
         * exists (f c), e. unfold nd, f. cbn [d_cu d_off d_raw d_parent d_term set_c_cache c_off c_diemap c_dielist].
           split; [exact Hfc|]. split; [exact He|]. split; [reflexivity|].
           split; [apply in_combine_insert; auto|]. split; intros x Hx; discriminate.
+      + apply cuheap_upd; [intros c0; reflexivity|exact I11].
     - unfold s'. split; [scbn; exact Hmono|]. split; [scbn; exact Hdm|reflexivity].
     - exists nd, (f c). unfold s'. scbn. split; [apply nth_error_snoc_new|]. split; [exact Hfc|]. split; reflexivity.
   Qed.
